@@ -39,6 +39,13 @@ def gen_case(rng):
             spec['base'] = [[s, p / tot * (1 - pm)] for s, p in spec['base']]
             i = {'first': 0, 'last': len(spec['base']), 'middle': len(spec['base']) // 2}[place]
             spec['base'].insert(i, ['M', pm])
+            if rng.random() < 0.25:
+                # what the trainer writes for a list whose passwords all share one structure: count / total with the Markov pseudo-count N/c - N.
+                # On paper p / (1 - P(M)) = 1; as floats it is 1 +- 1 ulp
+                N, c = rng.randint(1, 40), rng.choice([0.6, 0.6, 0.1, 0.2, 0.3, 0.7, 0.9, 0.45])
+                pseudo = N / c - N
+                keep = next(b for b in spec['base'] if b[0] != 'M')
+                spec['base'] = sorted([[keep[0], N / (N + pseudo)], ['M', pseudo / (N + pseudo)]], key=lambda r: -r[1])
     return {'spec': spec, 'place': place, 'hseed': rng.getrandbits(32)}
 
 def pops_of(path, skip_brute, skip_case):
